@@ -642,14 +642,18 @@ def c15_check(sc, res):
                                     open_ = True
                                     continue
                                 v = 0.5 * (s_ + e_ + math.sqrt(rad))
-                                props.append(('lim', v, IL, x['tach']))
+                                # the formula cancels when |speed ratio| is large (a run that has blown up numerically):
+                                # binary64 evaluation of it is only good to a few ulps of its largest term
+                                cond = 16 * 2.0 ** -52 * (abs(s_) + abs(e_) + math.sqrt(rad))
+                                props.append(('lim', v, IL, x['tach'], cond))
                     if open_ or len(props) >= 2:
                         continue
                     want = min(max(props[0][1], -1), 1) if props else 1
-                    if not close(r['pwm'], want, 1e-9):
+                    cond = props[0][4] if props and props[0][0] == 'lim' else 0.0
+                    if not close(r['pwm'], want, 1e-9 + cond):
                         out.append(W('rule-value', f'instant {k}: recorded duty cycle {r["pwm"]!r}; the rules {[x["r"] for x in rules]} propose {[(q[0], q[1]) for q in props]} (expected {want!r})', sc, instant=k))
                         return out
-                    if props and props[0][0] == 'lim' and props[0][3] == 0 and m['i0'] / m['imax'] + 1e-9 < props[0][1] < 1 - 1e-9 and r['cur'] is not None:
+                    if props and props[0][0] == 'lim' and props[0][3] == 0 and m['i0'] / m['imax'] + 1e-9 < props[0][1] < 1 - 1e-9 and r['cur'] is not None and cond < 1e-10:
                         if not close(r['cur'], props[0][2], 1e-9 * m['imax']):
                             out.append(W('limit-current', f'instant {k}: StartLimitCurrent in force and unclipped (duty cycle {r["pwm"]!r}) but the recorded current is {r["cur"]!r} A, limit {props[0][2]!r} A', sc, instant=k))
                             return out
